@@ -54,37 +54,25 @@ SCALE_W3 = (2 ** 24 - 1) // 3     # model offset 3 (= W) -> real offset 2^24-1, 
 
 
 def beh_to_replays(hist, cfg, rng, bases, next_id, raw_share=0.1, scaled=False):
-    """Turn one behaviour TLC dumped (a list of predicted call records) into
-    replayable behaviours with the prediction attached."""
-    out = []
+    """Turn one behaviour TLC dumped (a list of predicted call records) into one replayable
+    behaviour with the prediction attached; the runner expands it into one trace per variant
+    (real base, offset scale, class-preserving record types, Push instead of PushMessage)."""
     timed = any(r["op"] == "tick" for r in hist)
+    ops = [({"op": "push", "off": r["off"], "type": r["type"]} if r["op"] == "push" else {"op": r["op"]}) for r in hist]
+    tmo = cfg["Timeout"]
+    variants = []
     for bi, base in enumerate(bases):
-        ops = []
-        for r in hist:
-            if r["op"] == "push":
-                t = r["type"]
-                if t == 1300:
-                    t = rng.choice(PLAIN)
-                elif t == 1327:
-                    t = rng.choice(COMPLETING)
-                op = {"op": "push", "off": r["off"], "type": t}
-                if rng.random() < raw_share:
-                    op["op"] = "pushraw"
-                ops.append(op)
-            else:
-                ops.append({"op": r["op"]})
-        tmo = cfg["Timeout"]
-        b = {"trace": next_id[0], "max": cfg["Max"], "tinf": tmo == INF,
-             "timeout_us": 0 if tmo == INF else int((tmo + 0.5) * TICK_US),
-             "base": {"hi": base >> 16, "lo": base & 0xFFFF}, "tick_us": TICK_US,
-             "inf_kind": rng.randrange(5),
-             "ops": ops, "pred": [dict(r, k="call") for r in hist], "timed": timed, "src": "tlc"}
+        v = {"base": {"hi": base >> 16, "lo": base & 0xFFFF}, "inf_kind": rng.randrange(5),
+             "retype": rng.randrange(1, 1 << 30), "raw": 10}
         if scaled and bi == len(bases) - 1:
-            b["scale"] = SCALE_W3
-            b["src"] = "tlc-scaled"
-        next_id[0] += 1
-        out.append(b)
-    return out
+            v["scale"] = SCALE_W3
+        variants.append(v)
+    b = {"trace": next_id[0], "max": cfg["Max"], "tinf": tmo == INF,
+         "timeout_us": 0 if tmo == INF else int((tmo + 0.5) * TICK_US),
+         "base": variants[0]["base"], "tick_us": TICK_US,
+         "ops": ops, "pred": [dict(r, k="call") for r in hist], "timed": timed, "src": "tlc", "variants": variants}
+    next_id[0] += 1
+    return [b]
 
 
 def plan(prop, tier):
@@ -157,7 +145,7 @@ def run(ctx):
                     continue
                 for b in beh_to_replays(hist, c, rng, real_bases(rng, pl["bases"]), next_id, scaled=c["Width"] == 4):
                     fh.write(json.dumps(b) + "\n")
-                    nrep += 1
+                    nrep += len(b["variants"])
     trp = ctx.path("replay", "trace.ndjson")
     summ = ctx.driver_json(["rs-run", "--in", behp, "--out", trp, "--sample", pl["sample"], "--par", 512], timeout=3000)
     st = summ["stats"]
@@ -198,13 +186,16 @@ def run(ctx):
     # ---- verdict -----------------------------------------------------------------
     def replay_of(flag):
         want = flag.get("trace")
-        for p in [behp] + rand_files:
+        for p, packed in [(behp, True)] + [(x, False) for x in rand_files]:
+            key = want // 16 if packed else want
             with open(p) as fh:
                 for line in fh:
-                    if '"trace":%d,' % want in line[:40] or '"trace": %d,' % want in line[:40]:
+                    if '"trace": %d,' % key in line[:40] or '"trace":%d,' % key in line[:40]:
                         b = json.loads(line)
-                        if b["trace"] == want:
+                        if b["trace"] == key:
                             b.pop("pred", None)
+                            if packed:      # keep only the flagged variant
+                                b["variants"] = [b["variants"][want % 16]]
                             return {"family": "reassembler", "behaviour": b}
         return {"family": "reassembler", "trace": want}
 
